@@ -304,9 +304,12 @@ def zernike_fit(opd, mask, modes, normalize=True, rho=None, theta=None):
 
     basis = zernike_basis(mask, modes, True, normalize, rho, theta)
 
-    basis = np.linalg.pinv(basis)
+    # the fit is over the mask: what the array holds outside of it (NaN or a
+    # sentinel in a measured map) takes no part in it
+    inside = mask.ravel() != 0
+    basis = np.linalg.pinv(basis[:, inside])
 
-    return np.einsum('ij,i->j', basis, opd.ravel())
+    return np.einsum('ij,i->j', basis, opd.ravel()[inside])
 
 
 def zernike_remove(opd, mask, modes, rho=None, theta=None):
